@@ -38,8 +38,9 @@ CLAIMS = {
         text='Bounded symbolic execution of the real emit(callback=)/_handle_eio_message/_handle_ack/trigger_callback/'
              'call() of Server+Manager and AsyncServer+AsyncManager over all histories of 3 (thorough 4) operations on '
              '2 transports x 2 namespaces with symbolic ACK ids, against a reference table of outstanding callbacks; '
-             'call() under every order of ACK / timeout / disconnect (wait hook; all miniloop schedules). Exhaustive '
-             'within those bounds; longer histories are outside the claim.',
+             'call() under every order of ACK / timeout / disconnect / another emit with a callback to the same client (wait hook; all '
+             'miniloop schedules); ids that were answered are never issued again; a callback that itself uses the server (chained '
+             'emit with callback, disconnect) returns (10 s watchdog). Exhaustive within those bounds; longer histories are outside the claim.',
         ref='5 C06', technique='symbolic execution (CrossHair+z3) of real server/manager code over bounded histories'),
     'C09': dict(
         text='Bounded symbolic execution of the real Client/AsyncClient event dispatch, ACK construction, '
@@ -64,7 +65,8 @@ CLAIMS = {
     'C20': dict(
         text='Systematic enumeration, driven by the solver, of all schedules of two (thorough: three) real threads '
              'terminating one session id on the real threaded Server, pre-empting before every manager call and in the '
-             'handler (thorough: also before every engine.io call). The schedule vector is the only symbolic input, so '
+             'handler (thorough: also before every engine.io call), and - for five pairs - line by line inside the manager\'s look-ups '
+             '(sys.settrace in the worker threads) with at most two pre-emptions per schedule, exhaustively. The schedule vector is the only symbolic input, so '
              'solver leverage is low; it is the same engine and verdict discipline. The check-then-mark race is a '
              'known finding identified by its schedule family.',
         ref='5 C20', technique='solver-driven schedule enumeration (CrossHair+z3 over a baton thread scheduler) on the real Server'),
@@ -111,8 +113,9 @@ CLAIMS = {
              'pattern, attempt limit and abort position as tape choices; z3 (real arithmetic) decides the back-off bound, '
              'the attempt count, wait/attempt pairing, attempt parameters and final notification on every path (up to 5, '
              'thorough 8, waits). A second check runs the real client on the fake engine.io through four causes of '
-             'loss, transport and namespace failures of attempts, success (handlers re-run, fresh sids), a second loss '
-             'and shutdown during back-off.',
+             'loss, transport and namespace failures of attempts, success (handlers re-run, fresh sids), a second loss, '
+             'shutdown during back-off, a connection made by hand after an effort that gave up and lost again, and a loss in the '
+             'middle of a binary event.',
         ref='5 C10', note=NOTE_XH + ' Floats are modelled as reals (1e-9 slack).',
         technique='symbolic execution (CrossHair+z3, real arithmetic) of the real reconnect loop with time and randomness as symbolic inputs'),
     'C08': dict(
@@ -174,7 +177,7 @@ CLAIMS = {
              'operations, plus the instant a wait returns) of a producer thread driving the handlers that the real '
              'SimpleClient.connect() registers against a consumer thread calling the real receive()/emit(), over seven '
              'scenarios (arrivals, bursts, loss and reconnection, final disconnect); and all await-point interleavings of '
-             'the real AsyncSimpleClient. Safety claims only: order, exactly-once, no event lost, TimeoutError only while '
+             'the real AsyncSimpleClient. Safety claims, plus: a receive() without timeout ends once the connection has ended for good. Order, exactly-once, no event lost, TimeoutError only while '
              'nothing completed is buffered, DisconnectedError only after the end, emit waits out a reconnection. The '
              'schedule vector is the only symbolic input (low solver leverage, same engine and verdict discipline).',
         ref='5 C19', technique='solver-driven schedule enumeration (CrossHair+z3 over baton threads / miniloop) on the real SimpleClient'),
